@@ -359,7 +359,7 @@ class Script(object):
                     hash_type = data.hash_type
                     blueprint.append('signature')
                 elif data_type == 'key':
-                    keys.append(Key(data, strict=strict))
+                    keys.append(Key(data, strict=False))
                     blueprint.append('key')
                 elif data_type == 'key_object':
                     keys.append(data)
